@@ -23,7 +23,7 @@ PROP_FILE = 'Props/C01.v'
 THEOREMS = [
     'C01_checked_out_once', 'C01_initial_request_once', 'C01_requested_once_without_redirects',
     'C01_terminates', 'C01_final', 'C01_complete_closed', 'C01_complete_path_independent',
-    'C01_each_url_requested_once_refuted', 'C01_schedule_independent_refuted',
+    'C01_each_url_requested_once_refuted', 'C01_schedule_independent_refuted', 'C01_one_worker_schedule_independent',
 ]
 TRUSTED = [
     'hand-written LTS coq/Model/Engine.v of the crawl engine (session.py, sqltable.py, processor/web.py + rule.py, '
@@ -321,7 +321,9 @@ LEVEL_TEXT = (
     'Two clauses of the full statement are refuted on the current code (vm_compute witnesses, kept as known findings): a redirect '
     'target that is also linked is requested twice (C01_each_url_requested_once_refuted; without redirects: '
     'C01_requested_once_without_redirects), and with several workers the recorded level is the first-discovery level, so the set '
-    'of fetched URLs depends on the schedule under a depth limit (C01_schedule_independent_refuted). '
+    'of fetched URLs depends on the schedule under a depth limit (C01_schedule_independent_refuted); with ONE worker schedule '
+    'independence is proved with no guard at all - same table rows with the same recorded columns in the same order, same requests, '
+    'however far the producer runs ahead and however often the process is killed (C01_one_worker_schedule_independent). '
     '"In whatever spelling" is carried by the correspondence (spellings are tied to canonical URLs by the generator: scheme/host case, '
     'fragments, dot and empty segments at the start, in the middle and at the END of the path, relative forms) and by C10, not by these '
     'theorems. The first-discovery defect has a second face, also a known finding (root-first-discovery): with several start URLs a row keeps '
